@@ -246,6 +246,64 @@ def examine_lifecycle(ctx, case, used_enc, n, terms, decoded, rng):
                 break
 
 
+def examine_retry(ctx, case, n, terms, decoded, rng):
+    """An encoder first asked with a makespan limit that is too short for some job (the documented ValueError), then given the
+    real limit on the same object (makespan_limit is a public attribute) must behave like a fresh encoder for that limit:
+    same qubit count, same Hamiltonian, same decoding.  Short limits: one below the longest job, and the length of the first
+    job when later jobs are longer (so that the aborted attempt had already registered operations)."""
+    inst, L, P = case["inst"], case["L"], case.get("P") or dict(DEFAULT_P)
+    lens = [job_len(j) for j in inst["jobs"]]
+    shorts = sorted({x for x in (max(lens) - 1, lens[0], min(lens)) if 0 <= x < max(lens)})
+    sample = list(decoded)
+    if len(sample) > 16:
+        sample = rng.sample(sample, 16)
+    for L0 in shorts:
+        tag = f"encoder first asked with makespan_limit {L0} (too short), then set to {L}"
+        c = dict(case, lifecycle=tag, short_limit=L0)
+        enc = impl_encoder(inst, L0, P, case.get("objects"))
+        first = rng.choice(["n_qubits", "hamiltonian", "decode"])
+        try:
+            if first == "n_qubits":
+                enc.n_qubits
+            elif first == "hamiltonian":
+                enc.get_problem_hamiltonian()
+            else:
+                enc.translate_result_bitstring("0")
+            ctx.violation("oracle", "short-limit-accepted", f"makespan_limit {L0} is shorter than the longest job ({max(lens)}) but {first} did not raise", c)
+            continue
+        except ValueError:
+            pass
+        except Exception as e:  # noqa
+            ctx.violation("oracle", "short-limit-wrong-exception", f"makespan_limit {L0} shorter than the longest job: {first} raised {type(e).__name__}: {e}, documented is ValueError", c)
+            continue
+        ctx.tally(f"lifecycle:retry-after-short-limit/{first}")
+        enc.makespan_limit = L
+        try:
+            n2 = int(enc.n_qubits)
+        except Exception as e:  # noqa
+            ctx.violation("oracle", "retry-n-qubits", f"{tag}: n_qubits raised {type(e).__name__}: {e}; a fresh encoder reports {n}", c)
+            continue
+        if n2 != n:
+            ctx.violation("oracle", "retry-n-qubits", f"{tag}: n_qubits = {n2}, a fresh encoder for limit {L} reports {n}", c)
+            continue
+        if terms is not None:
+            h = impl_hamiltonian(enc)
+            if h[0] == "err":
+                ctx.violation("oracle", "retry-hamiltonian", f"{tag}: get_problem_hamiltonian raised {h[1]}: {h[2]}; a fresh encoder builds one", c)
+            else:
+                t2, _ = ham_terms(h[1]) if h[1].num_qubits == n else ({}, None)
+                if t2 != terms:
+                    ctx.violation("oracle", "retry-hamiltonian", f"{tag}: a different Hamiltonian ({h[1].num_qubits} qubits, {len(t2)} distinct terms; fresh encoder {n} qubits, {len(terms)} terms)", c)
+        for b in sample:
+            try:
+                got = impl_decode(enc, inst, b)[0]
+            except Exception as e:  # noqa
+                got = f"{type(e).__name__}: {e}"
+            if got != decoded[b][0]:
+                ctx.violation("oracle", "retry-decoding", f"{tag}: decodes {b!r} to {got}, a fresh encoder to {decoded[b][0]}", dict(c, bitstring=b))
+                break
+
+
 def impl_vars(enc, inst):
     pi = enc.jssp_instance
     out = []
@@ -618,6 +676,8 @@ def examine(ctx, batch, case, want, rng, max_all=10):
     reinspect_kept(ctx, case, enc, decoded, kept)
     if "C15" in want and n <= 16 and decoded:
         examine_lifecycle(ctx, case, enc, n, terms, decoded, rng)
+    if n <= 16 and decoded:
+        examine_retry(ctx, case, n, terms, decoded, rng)
     # wrong lengths are rejected (model: ValueError)
     for b in ([("0" * (n + 1))] + (["0" * (n - 1)] if n >= 1 else [])):
         try:
